@@ -112,6 +112,7 @@ type Machine struct {
 	noSample             bool
 	dlogs                []*dlog
 	stdin, stdout        []value
+	stdoutBroken         bool
 	stdinChunk           int
 	fixedNow             uint64
 	undecidedEq          int
